@@ -17,9 +17,12 @@ PROGRAMS = {
     "low": ["*=0x008000\nstart:\nlda #K\nsta 0x2100\n.dw start\n*=0x018200\nfar:\n.db 1, 2, 3\njmp.l far\n",
             # the define is used while the source is EXPANDED (.if condition, .for bound, := right-hand side), and a string holds a TAB
             "*=0x008000\n.if K {\nlda #0x12\n} else {\nlda #0x34\n}\n.for i := 0, K - K + 2 {\n.db i + K\n}\ncopy := K + 1\n.db copy\n.ascii 'COL1\tCOL2'\n",
-            "*=0x00FFFC\n.dl 0x123456\n.dl 0x654321\nafter:\n.dw after\n"],
-    "low2": ["*=0x808000\nstart:\nlda #K\n.dl start\n*=0x818100\n.db 9\n"],
-    "high": ["*=0xC00000\nstart:\nlda #K\n.dl start\n*=0xC1FFFE\n.dw 0x1234\n.dw 0x5678\n", "*=0x400010\n.db K\nhere:\n.dl here\n"],
+            "*=0x00FFFC\n.dl 0x123456\n.dl 0x654321\nafter:\n.dw after\n",
+            # blocks written in DESCENDING address order, the later one overlapping the earlier one's start: the image keeps the highest byte, the later write wins
+            "*=0x018000\n.db 0x11, 0x12, 0x13, K\n*=0x008000\nlda #K\nrts\n*=0x017FFE\n.db 0x21, 0x22, 0x23\n"],
+    "low2": ["*=0x808000\nstart:\nlda #K\n.dl start\n*=0x818100\n.db 9\n", "*=0x818000\n.db 1, 2, K\n*=0x808000\nlda #K\n"],
+    "high": ["*=0xC00000\nstart:\nlda #K\n.dl start\n*=0xC1FFFE\n.dw 0x1234\n.dw 0x5678\n", "*=0x400010\n.db K\nhere:\n.dl here\n",
+             "*=0xC10000\n.db 0x11, 0x12, K\n*=0xC00000\nlda #K\n*=0xC0FFFF\n.db 0x31, 0x32\n"],
 }
 ROM = {"low": "low_rom", "low2": "low_rom_2", "high": "high_rom"}
 # one contiguous run of more than two full IPS records (> 0x1FFFE bytes, no *= in between): the patch needs three records
